@@ -26,9 +26,29 @@ RTOL = 1e-9
 
 
 def rtol_of(q):
-    """1e-9 up to q = 4; the conditioning of the (preconditioned) q-times integrated Wiener process grows by about an
-    order of magnitude per derivative: 1e-7 for q = 5, 6"""
-    return RTOL if q <= 4 else 1e-7
+    """1e-9 up to q = 3; the conditioning of the (preconditioned) q-times integrated Wiener process, and with it the
+    cancellation in smoothed high derivatives at t0, grows by more than an order of magnitude per derivative"""
+    return {4: 1e-8, 5: 1e-7, 6: 1e-5}.get(q, RTOL if q <= 3 else 1e-5)
+
+
+def deriv_floor(c, coeff_mag):
+    """Intrinsic rounding noise of the i-th Taylor coefficient estimated from data at spacing h: eps * |u^(j)| / h^(i-j).
+    coeff_mag: max |u^(j)| per coefficient j (length q+1). Returns one floor per coefficient (fixed grids only)."""
+    if c.get("routine", "fixed_grid") != "fixed_grid":
+        return np.zeros(len(coeff_mag))
+    g = [float(x) for x in c["grid"]]
+    h = min(b - a for a, b in zip(g[:-1], g[1:]))
+    out = []
+    for i in range(len(coeff_mag)):
+        out.append(200 * 2.3e-16 * max(max(coeff_mag[j], 1.0) / h ** (i - j) for j in range(i + 1)))
+    return np.array(out)
+
+
+def floor_dense(c, m):
+    """per-entry floor (N,) for a (T, (q+1) d) mean array in the dense layout"""
+    d = m.shape[1] // (c["q"] + 1)
+    mag = np.abs(m).reshape(m.shape[0], c["q"] + 1, d).max(axis=(0, 2))
+    return np.repeat(deriv_floor(c, mag), d)[None, :]
 STRATS = ("filter", "fixedinterval", "fixedpoint")
 CALIBS = ("none", "mle", "dyn")
 
@@ -305,7 +325,7 @@ def ts0_three(ck, n):
             (md, Pd, sd_), (mi, Pi, si), (mb, Pb, sb) = arrs(rd), arrs(ri), arrs(rb)
             sd = sd_of(Pd)
             # dense vs isotropic: everything, every mode
-            p = cmp_mean(md, mi, sd, rtol=rtol_of(c["q"]), label="ts0 dense-iso mean")
+            p = cmp_mean(md, mi, sd, rtol=rtol_of(c["q"]), label="ts0 dense-iso mean", extra=floor_dense(c, md))
             if p:
                 ck.report(f"C14.dense-iso.{cal}.mean", f"{describe(cc)}: {p}", rep)
             p = cmp_cov(Pd, Pi, sd, rtol=rtol_of(c["q"]), label="ts0 dense-iso cov")
@@ -317,7 +337,7 @@ def ts0_three(ck, n):
                 ck.report(f"C14.dense-iso.{cal}.num_steps", f"{describe(cc)}: {rd['num_steps']} vs {ri['num_steps']}", rep)
             # dense vs block-diagonal: means in none + mle, covariances in none, scale split in mle
             if cal in ("none", "mle"):
-                p = cmp_mean(md, mb, sd, rtol=rtol_of(c["q"]), label="ts0 dense-blockdiag mean")
+                p = cmp_mean(md, mb, sd, rtol=rtol_of(c["q"]), label="ts0 dense-blockdiag mean", extra=floor_dense(c, md))
                 if p:
                     ck.report(f"C14.dense-blockdiag.{cal}.mean", f"{describe(cc)}: {p}", rep)
             if cal == "none":
@@ -380,7 +400,7 @@ def ts1_decoupled(ck, n):
         for a in range(d):
             ms, Ps, ss = arrs(rs[1 + a])
             sd = sd_of(Ps)
-            p = cmp_mean(ms, mb[:, a::d], sd, rtol=rtol_of(c["q"]), label="ts1 blockdiag-scalar mean")
+            p = cmp_mean(ms, mb[:, a::d], sd, rtol=rtol_of(c["q"]), label="ts1 blockdiag-scalar mean", extra=deriv_floor(c, np.abs(ms).max(axis=0))[None, :])
             if p:
                 ck.report(f"C14.blockdiag-scalar.{mode}.mean", f"{describe(c)} dimension {a}: scalar dense vs block: {p}", rep)
             p = cmp_cov(Ps, Pb[:, a::d, a::d], sd, rtol=rtol_of(c["q"]), label="ts1 blockdiag-scalar cov")
@@ -418,7 +438,7 @@ def ts1_scalar_jacobian(ck, n):
             continue
         (md, Pd, sd_), (mi, Pi, si) = arrs(rd), arrs(ri)
         sd = sd_of(Pd)
-        p = cmp_mean(md, mi, sd, rtol=rtol_of(c["q"]), label="ts1 dense-iso mean")
+        p = cmp_mean(md, mi, sd, rtol=rtol_of(c["q"]), label="ts1 dense-iso mean", extra=floor_dense(c, md))
         if p:
             ck.report(f"C14.dense-iso.{mode}.mean", f"{describe(c)} [{c['jac']}]: {p}", rep)
         p = cmp_cov(Pd, Pi, sd, rtol=rtol_of(c["q"]), label="ts1 dense-iso cov")
@@ -532,7 +552,7 @@ def main():
     if not pr["ok"] and not ck.violations:
         ck.report("C14.proof", f"proof obligations no longer check: {pr['errors']}",
                   {"broken": pr.get("failed_at", "Props/C14.v"), "errors": pr["errors"]}, nofail=True)
-    ck.finish(rule="implementation vs implementation in the dense layout (index i*d+a), float64, tolerance 1e-9 (q <= 4; 1e-7 for q = 5, 6) relative to |mean|+sd resp. sd_i*sd_j: "
+    ck.finish(rule="implementation vs implementation in the dense layout (index i*d+a), float64, tolerance 1e-9 (q <= 3; 1e-8, 1e-7, 1e-5 for q = 4, 5, 6) relative to |mean|+sd resp. sd_i*sd_j, plus the rounding floor eps |u^(j)| / h^(i-j) of the i-th Taylor coefficient on a grid of spacing h: "
               "(1) TS0, default scales, shared initial std: dense/isotropic/block-diagonal on the same random polynomial ODE and fixed grid, "
               "strategies filter/fixed-interval/fixed-point, calibration none/mle/dynamic: dense=isotropic in everything (means, covariances, "
               "output scales) in every mode; dense=block-diagonal means (none, mle), covariances (none), dense_scale^2 = mean_a blockdiag_scale_a^2 (mle); "
